@@ -9,7 +9,7 @@ TNew == IsEvent("NewSession") /\ NewSession(Ev.u, Ev.src, Ev.t)
 TFull == IsEvent("Full") /\ Full(Ev.t)
 TReq == IsEvent("Req") /\ Req(Ev.u, Ev.src, Ev.dns, Ev.c, Ev.reply, Ev.same, Ev.neff, Ev.t)
 TLogin == IsEvent("LoginOk") /\ LoginOk(Ev.u, Ev.addr, Ev.t)
-TRebind == IsEvent("Rebind") /\ Rebind(Ev.u, Ev.src, Ev.t)
+TRebind == IsEvent("Rebind") /\ Rebind(Ev.u, Ev.src, Ev.t, Ev.proof)
 TDown == IsEvent("Down") /\ Down(Ev.u, Ev.dst, Ev.to, Ev.t)
 TReset == IsEvent("Reset") /\ MIsReset
 TNext == TNew \/ TFull \/ TReq \/ TLogin \/ TRebind \/ TDown \/ TReset
